@@ -144,7 +144,7 @@ Definition append_after (items : list ast) (extra : list triv) : list ast :=
   | [] => items end.
 
 (* children are pre-converted: (gap, concrete child, its ast) *)
-Definition kid := (str * cnode * ast)%type.
+Notation kid := (str * cnode * ast)%type.
 Fixpoint pds (inline_needs_binding : bool) (content : list kid) (items : list ast) (before : list triv)
              (prev : option cnode) : list ast * list triv :=
   match content with
